@@ -30,7 +30,7 @@ struct Cell {
 
 fn cells() -> Vec<Cell> {
     let mut v = Vec::new();
-    for variant in 0..3 {
+    for variant in 0..9 {
         for mode in MODES {
             for require in [false, true] {
                 for no_std in [false, true] {
@@ -77,7 +77,18 @@ fn program(kind: &str, no_std: bool, variant: u64, seed: u64) -> String {
             }
         }
         ("accepted", true) => format!("k :: {}\n\nf :: fn a: int -> int do\n    a * 2\nend\n\nstart :: fn do\n    x := f(k) + 1\n    x <=> {}\nend\n", variant + 1, (variant + 1) * 2 + 1),
-        ("rejected", _) => ["start :: fn do\n    x := 1 + \"s\"\nend\n", "start :: fn do\n    x := 1 +\nend\n", "start :: fn do\n    y := undefined_q\nend\n"][(variant % 3) as usize].to_string(),
+        ("rejected", _) => [
+            "start :: fn do\n    x := 1 + \"s\"\nend\n",
+            "start :: fn do\n    x := 1 +\nend\n",
+            "start :: fn do\n    y := undefined_q\nend\n",
+            "a :: b + 1\nb :: a\nstart :: fn do\nend\n",
+            "u :: step\nstep :: step + 1\nstart :: fn do\nend\n",
+            "start :: fn do\n    q := step\nend\nstep :: step + 1\n",
+            "use nope\nstart :: fn do\nend\n",
+            "start :: fn do\nend\nstart :: fn do\nend\n",
+            "<<<<<<< HEAD\nstart :: fn do\nend\n",
+        ][(variant % 9) as usize]
+            .to_string(),
         ("fails-assert", _) => format!("start :: fn do\n    x := {}\n    x <=> {}\nend\n", variant, variant + 1),
         (_, _) => format!("start :: fn do\n    x := {}\n    if x == {} do\n        <!>\n    end\nend\n", variant, variant),
     }
@@ -240,9 +251,18 @@ fn judge_cell(c: &Cell, seed: u64, case: u64, st: &mut Stats) {
             bad = Some(("driver:silent-failure", "failed without printing anything".into()));
         }
         if !compile_ok && bad.is_none() {
-            let text = String::from_utf8_lossy(&ob.stdout);
-            if !text.to_lowercase().contains("error") {
-                bad = Some(("driver:error-not-printed", "compile error not found on stdout".into()));
+            // every error the compiler returned is printed: its rendering (colours stripped) appears on stdout
+            let text = sy::strip_ansi(&String::from_utf8_lossy(&ob.stdout));
+            if let Compiled::Err { errors, .. } = &expect {
+                for e in errors {
+                    let first = e.display.lines().find(|l| !l.trim().is_empty()).unwrap_or("").trim().to_string();
+                    // in-process paths are "main.sy", the driver saw "prog.sy"
+                    let first = first.replace("main.sy", "prog.sy");
+                    if !first.is_empty() && !text.contains(&first) {
+                        bad = Some(("driver:error-not-printed", format!("the error `{}` is not on stdout", first)));
+                        break;
+                    }
+                }
             }
         }
     }
